@@ -24,7 +24,7 @@ Environment: no network. For every shell command: export GOFLAGS=-mod=mod GOPROX
 Steps:
 1. Read the anchored code and the existing tests of those packages.
 2. Make the change. Confirm `go build ./...` works for the affected packages and that the existing tests of every package you touched (and of packages that directly depend on the changed code, if quick) still pass: run them 2 times to rule out flakiness.
-3. Write the demonstration test; confirm it fails with the change; `git stash` the source change (keep the demo test) and confirm the demo passes on the original code; restore the change.
+3. Write the demonstration test; confirm it fails with the change; then take the source change out with `git diff > {wt}.patch && git checkout -- <changed files>` (keep the demo test; do NOT use `git stash`: the stash is shared between worktrees and other people are working in sibling worktrees), confirm the demo passes on the original code, and restore the change with `git apply {wt}.patch`.
 4. Leave the worktree with the change and the demonstration file in place (uncommitted is fine).
 
 Final answer (concise): the unified diff of the source change, the path of the demonstration test, the exact commands you ran with their pass/fail outcomes, and one paragraph on what the bug needs in order to manifest and which clause of the property it violates. If after honest effort you cannot find a change that the existing tests do not catch, say so and describe the closest candidates.""")
